@@ -235,6 +235,9 @@ def selection(ctx, p):
             s = cn(l, kids(r[0])[0])
             pn = [q['name'] for q in l.params]
             cmp_ok = len(pn) == 2 and s == '(%s.second<%s.second)' % (pn[0], pn[1])
+    if not me:
+        raise AnalysisBroken('C19: get_best_move does not pick its record with std::max_element; another way of finding the largest weight '
+                             'is not something the rule can judge')
     okb = okb and len(me) == 1 and cmp_ok
     if okb:
         a = [cn(b, x) for x in kids(me[0])[1:3]]
@@ -262,6 +265,21 @@ def selection(ctx, p):
         ev = [x for x in walk(fr[0]) if x['k'] == 'VarDecl' and not x.get('name', '').startswith('__')]
         oks = len(rng) == 1 and cn(r, kids(rng[0])[0]) == 'moves' and len(ev) == 1 and cn(r, kids(adds[0])[1]) == ev[0]['name'] + '.second' and \
             not facts_atoms(r, [(c, t) for c, t in guard_facts(r, adds[0]) if '__begin' not in cn(r, c) and 'CXXRewrittenBinaryOperator' not in cn(r, c)])
+    if not adds and sm is not None:
+        # std::accumulate(moves.begin(), moves.end(), 0, [](int s, const auto& m) { return s + m.second; })
+        init_ = _unbool(kids(sm)[0]) if kids(sm) else None
+        acc_ = [x for x in walk(kids(sm)[0]) if (x.get('callee') or {}).get('n', '').startswith('std::accumulate')] if kids(sm) else []
+        if len(acc_) == 1:
+            a_ = kids(acc_[0])[1:]
+            lam_ = [p.funcs.get(x.get('lambda')) for x in walk(acc_[0]) if x['k'] == 'LambdaExpr']
+            ok_l = False
+            if len(lam_) == 1 and lam_[0] is not None:
+                rr = [x for x in lam_[0].all_nodes() if x['k'] == 'ReturnStmt']
+                pn = [q['name'] for q in lam_[0].params]
+                ok_l = len(rr) == 1 and len(pn) == 2 and cn(lam_[0], kids(rr[0])[0]) in ('(%s+%s.second)' % (pn[0], pn[1]), '(%s.second+%s)' % (pn[1], pn[0]))
+            oks = len(a_) >= 4 and [cn(r, x) for x in a_[:2]] == ['moves.begin()', 'moves.end()'] and const_of(strip_casts(a_[2])) == 0 and ok_l
+        else:
+            raise AnalysisBroken('C19: sum_of_weights of get_random_move is computed in a form the rule does not know')
     ctx.ob('C19.R4.sum', 'get_random_move', bool(ok0 and oks), 'sum_of_weights is the sum of the weights of all records of the key', site=r.loc())
     # sample in [0, sum): x % sum_of_weights, guarded by sum > 0
     sd = decl(r, 'sample')
@@ -373,6 +391,8 @@ def selection(ctx, p):
                 raise AnalysisBroken('C19: selection loop of get_random_move is written in a form the rule does not know')
     elif m and base is not None:
         raise AnalysisBroken('C19: get_random_move selects its record in a form the rule does not know')
+    if not okw and why == 'cumulative walk not recognised':
+        raise AnalysisBroken('C19: the selection walk of get_random_move is written in a form the rule does not know')
     ctx.ob('C19.R4.cumulative-walk', 'get_random_move', okw,
            'the random policy selects the first record whose cumulative weight exceeds the sample, so each record is selected for exactly '
            '`weight` of the `sum` samples and a zero-weight record for none — ' + why, site=r.loc(loops[0]) if loops else r.loc())
